@@ -236,9 +236,10 @@ def parseLine (toks : List Bytes) (rest : Bytes) : Option (Req × Bytes) :=
         | [] => none
     | none =>
       if v = ofString "delete" then
-        let (args, nr) := splitNoreply args
+        -- memcached looks for `noreply` only after the key, so `delete noreply` deletes the key "noreply"
         match args with
-        | [k] => if validKey k then some (.delete k nr, rest) else none
+        | [k] => if validKey k then some (.delete k false, rest) else none
+        | [k, n] => if validKey k ∧ n = ofString "noreply" then some (.delete k true, rest) else none
         | _ => none
       else if v = ofString "incr" ∨ v = ofString "decr" then
         let (args, nr) := splitNoreply args
